@@ -346,7 +346,7 @@ def check_insert_at(ck, tu, tree, cfg, rule="INSERT-EFFECT"):
                 ex.store(ex.lv_of_ptr(ex.ev(args[3])), NK)
                 ex.store(ex.lv_of_ptr(ex.ev(args[4])), NC)
             return ("r",)
-        ex = absexec.Exec(fn, caps, tu=tu, stubs={"find_lower": find_lower, "insert_descend": recurse,
+        ex = absexec.Exec(fn, caps, tu=tu, stubs={"find_lower": find_lower, "find_upper": find_lower, "insert_descend": recurse,
                                                   "key_equal": lambda ex, e: False},
                           inline=("split_leaf_node", "split_inner_node"))
         bind(ex, fn, [node, absexec.keyof(V), V, absexec.OutPtr("splitkey"), absexec.OutPtr("splitnode")])
@@ -461,6 +461,7 @@ def check_erase_at(ck, tu, tree, cfg, fn, rule):
             return f[1] in str(r[1]).split("|")
         stubs = {
             "find_lower": lambda ex, e: slot,
+            "find_upper": lambda ex, e: slot,
             "key_equal": lambda ex, e: True,
             "is_underflow": lambda ex, e: False,
             "has": has,
@@ -564,3 +565,121 @@ def check_erase_at(ck, tu, tree, cfg, fn, rule):
     else:
         ck.ok(rule, tree.where(fn, "inner cap %d" % cap), "%d (fill, slot, emptied child) cases: emptied child freed, keys and children closed up" % n)
         ck.states += n
+
+
+# ------------------------------------------------------------------ bulk_load: the tree it builds
+def check_bulk_load(ck, tu, tree, cfg, rule="BULK-LOAD-SHAPE"):
+    """bulk_load() is executed abstractly for input lengths across three levels of the tree at the instantiated
+    capacities (its body uses the capacity constants, so only those); the result must be a legal B+ tree that
+    holds the input in order: arrays within capacity, slotuse + 1 children, equal depth, every non-root node at
+    least half full, separators = largest key below, consistent leaf chain, size = n"""
+    lcap, icap = cfg["leaf"], cfg["inner"]
+    lmin, imin = lcap // 2, icap // 2
+    caps = {"leaf": lcap, "inner": icap}
+    fns = tree.find("bulk_load")
+    if not fns:
+        raise ir.AnalysisBroken("bulk_load not instantiated for %s" % tree.label)
+    fn = fns[0]
+    sizes = set(range(0, 3 * lcap + 2))
+    for base in (lcap, lcap * (icap + 1), lcap * (icap + 1) * (icap + 1), lmin * (imin + 1), lcap * icap):
+        for k in (1, 2, 3):
+            for d in (-1, 0, 1):
+                sizes.add(base * k + d)
+    top = lcap * (icap + 1) * (icap + 1) + lcap + 1
+    sizes |= set(range(0, top, 7))
+    sizes = sorted(x for x in sizes if 0 <= x <= top)
+    problem = None
+    for n in sizes:
+        if problem:
+            break
+        try:
+            IN = absexec.Node("in", "leaf", max(n, 1), n)
+            ex = absexec.Exec(fn, caps, tu=tu)
+            bind(ex, fn, [absexec.ArrPtr(IN, "slotdata", 0), absexec.ArrPtr(IN, "slotdata", n)])
+            ex.this.update(root_=None, head_leaf_=None, tail_leaf_=None, stats_=dict(size=0, leaves=0, inner_nodes=0))
+            ex.stubs["empty"] = lambda ex, e: True
+            ex.stubs["verify"] = lambda ex, e: None
+            ex.run(kids(fn.body))
+            problem = bulk_shape_problem(ex, IN, n, lcap, icap, lmin, imin)
+            if problem:
+                problem = "bulk_load of %d entries (leaf capacity %d, inner capacity %d): %s" % (n, lcap, icap, problem)
+        except absexec.Problem as p:
+            problem = "bulk_load of %d entries (leaf capacity %d, inner capacity %d): %s" % (n, lcap, icap, p)
+    if problem:
+        ck.violation(rule, fn.qname, "bulk_load@%d/%d" % (lcap, icap), problem, fn.loc)
+    else:
+        ck.ok(rule, tree.where(fn, "cap %d/%d" % (lcap, icap)), "%d input lengths up to %d: legal tree, input conserved in order" % (len(sizes), top))
+        ck.states += len(sizes)
+
+
+def bulk_shape_problem(ex, IN, n, lcap, icap, lmin, imin):
+    root, head, tail = ex.this.get("root_"), ex.this.get("head_leaf_"), ex.this.get("tail_leaf_")
+    st = ex.this.get("stats_") or {}
+    if st.get("size") != n:
+        return "size() reports %s" % st.get("size")
+    if n == 0:
+        return None if root is None and head is None and tail is None else "an empty load must leave an empty tree"
+    if not isinstance(root, absexec.Node):
+        return "no root"
+    # leaf chain
+    chain, x, prev = [], head, None
+    while x is not None:
+        if not isinstance(x, absexec.Node) or x.kind != "leaf" or len(chain) > n + 2:
+            return "the leaf chain is broken"
+        if x.prev_leaf is not prev:
+            return "prev_leaf of a leaf does not point to its predecessor"
+        chain.append(x)
+        prev, x = x, x.next_leaf
+    if not chain or chain[-1] is not tail:
+        return "tail_leaf_ is not the last leaf of the chain"
+    data = [d for leaf in chain for d in live(leaf, "slotdata")]
+    if data != IN.slotdata[:n]:
+        return "the leaves hold %d entries %s; expected the %d input entries in order" % (len(data), summarize(data[:12]), n)
+    # tree walk
+    leaves_in_tree = []
+    depths = set()
+
+    def walk_tree(node, depth, is_root):
+        if not isinstance(node, absexec.Node):
+            return "a child slot holds %r instead of a node" % (node,)
+        if node.kind == "leaf":
+            depths.add(depth)
+            leaves_in_tree.append(node)
+            if node.slotuse > lcap:
+                return "a leaf holds %d entries, capacity %d" % (node.slotuse, lcap)
+            if not is_root and node.slotuse < lmin:
+                return "a leaf holds %d entries, the minimum is %d" % (node.slotuse, lmin)
+            if node.slotuse == 0:
+                return "an empty leaf"
+            return None
+        if node.slotuse > icap:
+            return "an inner node holds %d keys, capacity %d" % (node.slotuse, icap)
+        if node.slotuse < (1 if is_root else imin):
+            return "an inner node holds %d keys, the minimum is %d" % (node.slotuse, 1 if is_root else imin)
+        for i in range(node.slotuse + 1):
+            c = node.childid[i]
+            if isinstance(c, absexec.Node) and c.kind == "inner" and c.level != node.level - 1:
+                return "level bookkeeping: child level %s below level %s" % (c.level, node.level)
+            if isinstance(c, absexec.Node) and c.kind == "leaf" and node.level != 1:
+                return "a leaf hangs below an inner node of level %s" % node.level
+            r = walk_tree(c, depth + 1, False)
+            if r:
+                return r
+            if i < node.slotuse:
+                mx = max_key(c)
+                if node.slotkey[i] != mx:
+                    return "separator %d of an inner node is %s, the largest key below it is %s" % (i, node.slotkey[i], mx)
+        return None
+
+    def max_key(node):
+        while node.kind == "inner":
+            node = node.childid[node.slotuse]
+        return absexec.keyof(node.slotdata[node.slotuse - 1])
+    r = walk_tree(root, 0, True)
+    if r:
+        return r
+    if len(depths) != 1:
+        return "leaves at different depths %s" % sorted(depths)
+    if [id(x) for x in leaves_in_tree] != [id(x) for x in chain]:
+        return "the leaf chain does not visit the leaves in tree order"
+    return None
